@@ -186,6 +186,7 @@ class Result:
         self.inconclusive = []  # reasons
         self.notes = []
         self.extra = {}
+        self.sets = {}
 
     def count(self, name, n=1):
         self.counters[name] = self.counters.get(name, 0) + n
@@ -205,6 +206,9 @@ class Result:
             self.mismatches.append(m)
         for s in res.get("samples", []):
             self.sample(s)
+        # named sets merged by union (e.g. the opcodes observed per bytecode version)
+        for k, vals in res.get("sets", {}).items():
+            self.sets.setdefault(k, set()).update(vals)
 
 
 def load_known():
@@ -295,6 +299,8 @@ def finish(result, tier, level, rule, t0, assumptions=None, min_eval=1, level_ex
         "verdict": {0: "held-on-observed", 1: "violated", 2: "inconclusive"}[status],
     }
     coverage.update(result.extra)
+    if result.sets:
+        coverage["observed_sets"] = dict((k, {"n": len(v), "members": sorted(v)}) for k, v in sorted(result.sets.items()))
     if level_extra:
         coverage.update(level_extra)
     ev = {
